@@ -202,9 +202,9 @@ func skipHashFields(name string) bool {
 	return false
 }
 
-func diffSkip(a, b *vchain.Observation) string {
+func diffSkip(a, b *vchain.Observation, skip map[string]bool) string {
 	for i := range a.Names {
-		if skipHashFields(a.Names[i]) {
+		if skipHashFields(a.Names[i]) || skip[a.Names[i]] {
 			continue
 		}
 		if i >= len(b.Names) || a.Names[i] != b.Names[i] {
@@ -300,7 +300,17 @@ func TestCheck(t *testing.T) {
 			bad := ""
 			at := 0
 			for i := range h.P.Obs {
-				if d := diffSkip(h.P.Obs[i], h2.P.Obs[i]); d != "" {
+				// Ledger queries return block hashes, which legitimately differ
+				// between the two block streams: their results are not compared.
+				hashDependent := map[string]bool{}
+				if i >= 1 && i <= len(h.P.Blocks) {
+					for j, tx := range h.P.Blocks[i-1].Transactions {
+						if strings.HasPrefix(h.P.TxKinds[tx.Hash()], "ledger-query") {
+							hashDependent[fmt.Sprintf("tx_aer:%d", j)] = true
+						}
+					}
+				}
+				if d := diffSkip(h.P.Obs[i], h2.P.Obs[i], hashDependent); d != "" {
 					bad, at = d, i
 					break
 				}
